@@ -112,6 +112,14 @@ type Known struct {
 	} `json:"fixed"`
 }
 
+// repoRoot is the netpoll tree under test (/repo unless VERIF_REPO points at a scratch worktree).
+func repoRoot() string {
+	if r := os.Getenv("VERIF_REPO"); r != "" {
+		return r
+	}
+	return "/repo"
+}
+
 func env() []string {
 	return append(os.Environ(), "GOFLAGS=-mod=mod", "GOPROXY=off", "GOSUMDB=off", "GOTOOLCHAIN=local", "CGO_ENABLED=1")
 }
@@ -141,16 +149,25 @@ func buildWorker(work string, fine, race bool) string {
 	ovDir := filepath.Join(work, "ov-"+tag)
 	os.RemoveAll(ovDir)
 	os.MkdirAll(ovDir, 0o755)
-	args := []string{"-out", ovDir}
+	args := []string{"-out", ovDir, "-repo", repoRoot()}
 	if fine {
 		args = append(args, "-fine")
 	}
 	if out, err := run(verif, filepath.Join(verif, "bin", "instrument"), args...); err != nil {
 		die(2, "instrument failed: %v\n%s", err, out)
 	}
-	os.WriteFile(filepath.Join(verif, "harness", "go.sum"), mustRead("/repo/go.sum"), 0o644)
+	os.WriteFile(filepath.Join(verif, "harness", "go.sum"), mustRead(filepath.Join(repoRoot(), "go.sum")), 0o644)
 	bin := filepath.Join(work, "verif"+tag)
 	bargs := []string{"build", "-tags", "verif", "-overlay", filepath.Join(ovDir, "overlay.json"), "-o", bin}
+	if repoRoot() != "/repo" {
+		// build against another tree: same go.mod with the replace directive pointed at it
+		gm := strings.Replace(string(mustRead(filepath.Join(verif, "harness", "go.mod"))), "=> /repo", "=> "+repoRoot(), 1)
+		gm = strings.Replace(gm, "=> ../engine", "=> "+filepath.Join(verif, "engine"), 1)
+		mf := filepath.Join(work, "go.mod")
+		os.WriteFile(mf, []byte(gm), 0o644)
+		os.WriteFile(filepath.Join(work, "go.sum"), mustRead(filepath.Join(repoRoot(), "go.sum")), 0o644)
+		bargs = append(bargs, "-modfile", mf)
+	}
 	if race {
 		bargs = append(bargs, "-race")
 	}
